@@ -155,6 +155,28 @@ def case_conv(rec, c):
                 rec.fail(dict(c, method=method), '%s: two results share memory' % method, {'method': method, 'kind': 'aliasing'})
         except Exception:
             pass
+        # the caller re-uses ONE buffer: convert, change the buffer in place, convert again - the second result is for the new content
+        try:
+            x = np.array([0.5, 1.0, 2.5])
+            f = getattr(uc, method)
+            qa = f(x, DIAM) if method == 'toVolumeFraction' else f(x)
+            ma = np.array(qa.magnitude, dtype=float, copy=True)
+            x *= 2.0
+            x += 0.25
+            qb = f(x, DIAM) if method == 'toVolumeFraction' else f(x)
+            rec.trans(2)
+            mb = np.asarray(qb.magnitude, dtype=float)
+            want = expected(method, x, dc, dcu, ec, ecu)
+            scale = np.maximum(np.abs(want), 273.15 if method == 'toCelcius' else 0.0)
+            if mb.shape != want.shape or not np.all(np.abs(mb - want) <= RTOL * scale):
+                rec.fail(dict(c, method=method), '%s: the same array object converted again after the caller changed its content in place gives %r, the formula on the new content gives %r '
+                         '(the first conversion gave %r)' % (method, mb.tolist(), want.tolist(), ma.tolist()), {'method': method, 'kind': 'stale'},
+                         repro="import numpy as np, pyPRISM\nuc = pyPRISM.util.UnitConverter(dc=%r, dc_unit=%r, ec=%r, ec_unit=%r)\nx = np.array([0.5, 1.0, 2.5]); a = uc.%s(x%s); x *= 2; print(a, uc.%s(x%s))"
+                               % (dc, dcu, ec, ecu, method, ', 1.3' if method == 'toVolumeFraction' else '', method, ', 1.3' if method == 'toVolumeFraction' else ''))
+            elif not np.array_equal(np.asarray(qa.magnitude, dtype=float), ma):
+                rec.fail(dict(c, method=method), '%s: the first result changed when the same (modified) array was converted again' % method, {'method': method, 'kind': 'aliasing'})
+        except Exception:
+            pass
         # linearity (affine for Celsius) from three scalar arguments, elementwise on arrays
         vals = []
         ok = True
